@@ -19,6 +19,7 @@ import (
 	"time"
 
 	"verif/sim/simhook"
+	"verif/sim/simrt"
 	"verif/sim/tape"
 )
 
@@ -99,6 +100,7 @@ type Result struct {
 	Violations  []string       `json:"violation_files"`
 	Samples     []string       `json:"samples"`
 	Nontrivial  int            `json:"nontrivial"`
+	Tasks       int            `json:"goroutines_simulated"`
 	WallS       float64        `json:"wall_s"`
 }
 
@@ -114,17 +116,40 @@ func generate(c *Cell, tp *tape.Tape, clockDays int) (out []byte) {
 	}
 	simhook.SetClock(simhook.Epoch().Add(time.Duration(clockDays) * 24 * time.Hour))
 	defer simhook.Install(nil)
-	defer func() {
-		if r := recover(); r != nil {
-			out = []byte(fmt.Sprintf("PANIC: %v", r))
-		}
-	}()
-	var buf bytes.Buffer
-	if err := genFn(c.config(), &buf, c.Names); err != nil {
-		return []byte("ERROR: " + err.Error())
+	// moq runs as the first task of a simulation: goroutines it starts (the
+	// seam turns go statements into simulated tasks and sync into simsync) are
+	// scheduled from the same tape; with no tape the schedule is canonical
+	st := tp
+	if st == nil {
+		st = tape.Replay(nil)
 	}
-	return buf.Bytes()
+	sim := simrt.New(st, simrt.Strategy{})
+	sim.MaxEvents = 2000000
+	sim.Go("moq", func() {
+		defer func() {
+			if r := recover(); r != nil {
+				out = []byte(fmt.Sprintf("PANIC: %v", r))
+			}
+		}()
+		var buf bytes.Buffer
+		if err := genFn(c.config(), &buf, c.Names); err != nil {
+			out = []byte("ERROR: " + err.Error())
+			return
+		}
+		out = buf.Bytes()
+	})
+	if !sim.Run() {
+		var vs []string
+		for _, v := range sim.Viol {
+			vs = append(vs, v.Class+": "+v.Detail)
+		}
+		return []byte("STUCK: " + strings.Join(vs, "; "))
+	}
+	tasksSpawned += len(sim.Tasks()) - 1
+	return out
 }
+
+var tasksSpawned int
 
 func firstDiff(a, b []byte) string {
 	la, lb := bytes.Split(a, []byte("\n")), bytes.Split(b, []byte("\n"))
@@ -206,6 +231,7 @@ func workerMain(args []string) {
 		}
 	}
 	simhook.Install(nil)
+	res.Tasks = tasksSpawned
 	res.WallS = time.Since(start).Seconds()
 	keys := make([]uint64, 0, len(sigs))
 	for k := range sigs {
